@@ -129,6 +129,24 @@ def child(idx, root, script, timeout, hold, logpath, delay=0.0):
             real_sleep(0.03)      # the 1 s retry period, shortened
     pool.shutil = Shutil
     pool.time = Time
+    # comparing the cache with the pool file reads the pool file: part of the transfer, hence of the critical section
+    real_crypto = pool.crypto
+
+    def slow_hash(path, *a, **kw):
+        if path.endswith(os.sep + "img"):
+            emit("in")
+            real_sleep(hold / 4)
+            r = real_crypto.hash_file(path, *a, **kw)
+            emit("out")
+            return r
+        return real_crypto.hash_file(path, *a, **kw)
+
+    class Crypto:
+        def __getattr__(self, name):
+            return getattr(real_crypto, name)
+    cryptomod = Crypto()
+    cryptomod.hash_file = slow_hash
+    pool.crypto = cryptomod
     params = Params({"update_pool_timeout": str(timeout)})
     cache = os.path.join(root, f"cache{idx}")
     poolf = os.path.join(root, "pool", "img")
